@@ -255,7 +255,8 @@ func Canon(m *dns.Msg, o CanonOpts) (s string) {
 					}
 
 					sort.Strings(os)
-					optStr = fmt.Sprintf(" opt{do=%t ver=%d %q}", opt.Do(), opt.Version(), os)
+					// The whole flag word: extended rcode, version, DO and Z bits.
+					optStr = fmt.Sprintf(" opt{do=%t ver=%d flags=%#08x %q}", opt.Do(), opt.Version(), opt.Hdr.Ttl, os)
 				}
 
 				continue
